@@ -1120,6 +1120,59 @@ func TestVerifC18(t *testing.T) {
 		}
 	}
 
+	// ---- part 1b: directed interleavings (start every operation, then release by fixed priority) ----
+	{
+		pres := c18init{present: true, version: 2, data: c18bytes(1, 2, 3)}
+		d := c18bytes(7)
+		type directed struct {
+			name   string
+			tracts []c18init
+			ops    []c18op
+			prio   []int
+		}
+		ds := []directed{
+			// a conditional bump (stamp seen before any write) queues behind a reader together with a write
+			{"condbump-behind-write", []c18init{pres},
+				[]c18op{{kind: c18Read, a1: 2, a2: 2}, {kind: c18Write, a1: 2, a2: 0, data: d}, {kind: c18SetVersion, a1: 3, a2: 1}}, []int{0, 1, 2}},
+			{"condbump-before-write", []c18init{pres},
+				[]c18op{{kind: c18Read, a1: 2, a2: 2}, {kind: c18SetVersion, a1: 3, a2: 1}, {kind: c18Write, a1: 2, a2: 0, data: d}}, []int{0, 1, 2}},
+			{"condbump-behind-two-writes", []c18init{pres},
+				[]c18op{{kind: c18Stat, a1: 2}, {kind: c18Write, a1: 2, a2: 0, data: d}, {kind: c18Write, a1: 2, a2: 1, data: d}, {kind: c18SetVersion, a1: 3, a2: 2}}, []int{0, 1, 2, 3}},
+			// contention on two tracts: the unlock of tract 1 must wake the waiter of tract 1, not only a waiter of tract 0
+			{"two-tracts-wakeup", []c18init{pres, pres},
+				[]c18op{{kind: c18Write, tract: 0, a1: 2, data: d}, {kind: c18Read, tract: 0, a1: 2, a2: 2}, {kind: c18Write, tract: 1, a1: 2, data: d}, {kind: c18Read, tract: 1, a1: 2, a2: 2}}, []int{2, 3, 0, 1}},
+			{"two-tracts-wakeup-writers", []c18init{pres, pres},
+				[]c18op{{kind: c18Write, tract: 0, a1: 2, data: d}, {kind: c18SetVersion, tract: 0, a1: 3}, {kind: c18Write, tract: 1, a1: 2, data: d}, {kind: c18Stat, tract: 1, a1: 2}, {kind: c18Check, tract: 1, a1: 2}}, []int{2, 0, 3, 4, 1}},
+			// a long copy-in: everybody else fails fast, on the other tract nobody notices
+			{"pull-vs-all", []c18init{pres, pres},
+				[]c18op{{kind: c18Pull, tract: 0, a1: 3, sources: []c18src{{core.NoError, c18bytes(5, 6)}}}, {kind: c18Read, tract: 0, a1: 2, a2: 2}, {kind: c18Write, tract: 0, a1: 2, data: d}, {kind: c18Read, tract: 1, a1: 2, a2: 2}}, []int{3, 0, 1, 2}},
+		}
+		for _, dc := range ds {
+			id := "dir-" + dc.name
+			if !vw.CaseSelected(id) {
+				continue
+			}
+			dc := dc
+			c := &c18case{id: id, tracts: dc.tracts, ops: dc.ops, class: "dir"}
+			c.choose = func(startable, parked []int, stepNo int, th []*c18thr) c18step {
+				if len(startable) > 0 {
+					return c18step{thread: startable[0], start: true}
+				}
+				for _, p := range dc.prio {
+					for _, q := range parked {
+						if p == q {
+							return c18step{thread: q}
+						}
+					}
+				}
+				return c18step{thread: parked[0]}
+			}
+			c18runCase(tr, known, c)
+			vw.Stat("dir.cases", 1)
+			vw.Distinct(id)
+		}
+	}
+
 	// ---- part 2: concurrent, schedule-controlled ----
 	nconc := vw.Scale(2500, 120000)
 	for ci := 0; ci < nconc; ci++ {
